@@ -255,8 +255,33 @@ pub enum Ev {
 }
 
 /// Sink installed into mmtk's cfg(mmtk_verif) event hooks.
+pub fn process_start() -> std::time::Instant {
+    static START: std::sync::OnceLock<std::time::Instant> = std::sync::OnceLock::new();
+    *START.get_or_init(std::time::Instant::now)
+}
+
 pub fn sched_sink(e: mmtk::verif::events::Ev) {
     use mmtk::verif::events::Ev as M;
+    {
+        let gl = g();
+        gl.sch_last_event_ms.store(process_start().elapsed().as_millis() as u64, Ordering::SeqCst);
+        match &e {
+            M::Park { parked, total, .. } => {
+                gl.sch_parked.store(*parked, Ordering::SeqCst);
+                gl.sch_total.store(*total, Ordering::SeqCst);
+            }
+            M::Unpark { parked, .. } => gl.sch_parked.store(*parked, Ordering::SeqCst),
+            M::Request { goal, .. } => {
+                gl.sch_requests.fetch_or(1 << *goal, Ordering::SeqCst);
+            }
+            M::GoalStart { goal } => {
+                gl.sch_requests.fetch_and(!(1usize << *goal), Ordering::SeqCst);
+                gl.sch_current.store(*goal as usize + 1, Ordering::SeqCst);
+            }
+            M::GoalComplete => gl.sch_current.store(0, Ordering::SeqCst),
+            _ => {}
+        }
+    }
     let x = match e {
         M::PacketAdd { stage, name, local } => Ev::PacketAdd { stage, name, local },
         M::PacketStart { worker, name } => Ev::PacketStart { worker, name },
@@ -344,6 +369,15 @@ pub struct Globals {
     /// pseudo option `__scan_delay` (microseconds): `scan_object` calls made while mutators are running
     /// (i.e. by concurrent marking packets) stall this long, so that marking overlaps with mutator ops
     pub scan_delay_us: AtomicUsize,
+    /// scheduler state mirrored from the event log for the quiescence watchdog (C14)
+    pub sch_parked: AtomicUsize,
+    pub sch_total: AtomicUsize,
+    pub sch_requests: AtomicUsize,
+    pub sch_current: AtomicUsize,
+    pub sch_last_event_ms: AtomicU64,
+    /// ask the next stop-the-world pause to call prepare_to_fork() from inside stop_all_mutators
+    pub fork_in_next_gc: std::sync::atomic::AtomicBool,
+    pub fork_requested_in_gc: AtomicU64,
     pub mutators_running: std::sync::atomic::AtomicBool,
     /// human-readable description of that call (for the watchdog's verdict)
     pub alloc_call_desc: Mutex<String>,
@@ -396,6 +430,13 @@ pub fn g() -> &'static Globals {
         emergency_seen: std::sync::atomic::AtomicBool::new(false),
         in_alloc_call: AtomicU64::new(0),
         scan_delay_us: AtomicUsize::new(0),
+        sch_parked: AtomicUsize::new(0),
+        sch_total: AtomicUsize::new(0),
+        sch_requests: AtomicUsize::new(0),
+        sch_current: AtomicUsize::new(0),
+        sch_last_event_ms: AtomicU64::new(0),
+        fork_in_next_gc: std::sync::atomic::AtomicBool::new(false),
+        fork_requested_in_gc: AtomicU64::new(0),
         mutators_running: std::sync::atomic::AtomicBool::new(true),
         alloc_call_desc: Mutex::new(String::new()),
     })
@@ -710,6 +751,11 @@ impl<const V: usize> Collection<ShadowVM<V>> for ShadowVM<V> {
         let ptrs: Vec<usize> = gl.mutators.lock().unwrap().iter().map(|m| m.ptr).filter(|p| *p != 0).collect();
         for p in ptrs {
             mutator_visitor(unsafe { &mut *(p as *mut Mutator<ShadowVM<V>>) });
+        }
+        if gl.fork_in_next_gc.swap(false, Ordering::SeqCst) {
+            // a VM thread asks the GC threads to stop for fork() while this collection is in progress
+            mmtk_ref::<V>().prepare_to_fork();
+            gl.fork_requested_in_gc.fetch_add(1, Ordering::SeqCst);
         }
     }
 
